@@ -101,6 +101,15 @@ def search_group(seed, n):
             ]
             if hasattr(a, "to_matrix"):
                 checks.append(("to_matrix", a.to_matrix(), H(a)))
+            if hasattr(cls, "from_matrix"):
+                # poses recovered from matrices (all four quadrants of the heading, clockwise rotations included)
+                checks.append(("from_matrix_to_matrix", H(cls.from_matrix(a.to_matrix())), H(a)))
+                checks.append(("oplus_from_matrix_product", H(cls.from_matrix(H(a) @ H(b))), H(a + b)))
+                checks.append(("ominus_from_matrix", H(cls.from_matrix(np.linalg.inv(H(b)) @ H(a))), H(a - b)))
+                checks.append(("inverse_from_matrix", H(cls.from_matrix(np.linalg.inv(H(a)))), H(a.inverse)))
+                fm = cls.from_matrix(a.to_matrix())
+                checks.append(("from_matrix_components", np.asarray(fm)[:2], np.asarray(a)[:2]))
+                checks.append(("from_matrix_angle", np.array([math.remainder(float(fm[2]) - float(a[2]), 2 * math.pi)]), np.array([0.0])))
             # point action
             if cname in ("PoseSE2", "PoseSE3"):
                 P = PoseR2 if cname == "PoseSE2" else PoseR3
@@ -247,7 +256,85 @@ def search_invariants(seed, chains, length):
         ulp = math.ulp(abs(a) + math.pi)
         if not (-math.pi <= w <= math.pi) or resid > 4 * ulp:
             return dict(kind="wrap_congruence", angle=a, wrapped=w, residual=float(resid), ulp=ulp), ev, worst_norm
+    for kodd in [1, -1, 3, -3, 5, 101, -257, 31831, -318309, 2001]:
+        base = kodd * math.pi
+        for j in range(-4, 5):
+            a = base
+            for _ in range(abs(j)):
+                a = math.nextafter(a, math.inf if j > 0 else -math.inf)
+            w = float(gu.neg_pi_to_pi(a))
+            ev += 1
+            kk = round((Fraction(a) - Fraction(w)) / (2 * PI))
+            resid = abs(Fraction(a) - Fraction(w) - kk * 2 * PI)
+            ulp = math.ulp(abs(a) + math.pi)
+            if not (-math.pi <= w <= math.pi) or resid > 4 * ulp:
+                return dict(kind="wrap_congruence", angle=a, wrapped=w, residual=float(resid), ulp=ulp, seam=True), ev, worst_norm
+            if abs(kodd) <= 5:
+                # the same angle reached by construction, composition, difference, inversion and update
+                half = a / 2
+                cands = [PoseSE2([0.3, -0.2], a), PoseSE2([0, 0], half) + PoseSE2([1, 2], a - half), PoseSE2([0, 0], a - 0.25) - PoseSE2([1, 1], -0.25),
+                         PoseSE2([0.5, 0.5], -a).inverse, PoseSE2([0, 0], 0.125) + np.array([0.0, 0.0, a - 0.125])]
+                for ci, r in enumerate(cands):
+                    ev += 1
+                    if not (-math.pi <= float(r[2]) <= math.pi):
+                        return dict(kind="angle_range", op="seam-%d" % ci, step=0, result=np.asarray(r).tolist(), a=[a], b=[]), ev, worst_norm
     return None, ev, worst_norm
+
+
+def search_optimizer_invariants(seed, n):
+    """SE(3) vertices after optimizer iterations have finite unit quaternions - also when the fixed flags were set AFTER the
+    Graph was constructed (by the caller or by fix_first_pose) and when a fixed vertex has no edge"""
+    import contextlib
+    import io
+    import warnings
+    from lib import graphgen as GG
+    from graphslam.graph import Graph
+    from graphslam.vertex import Vertex
+
+    ev = 0
+    for k in range(n):
+        rng = Rng(seed, "search_inv_opt|%d" % k)
+        g, desc = GG.make_graph(rng, world="3d", noise=0.02, well_posed=True, fix="first", custom=False, walk=True, ids="plain")
+        # the anchor must be a pose (a graph anchored at a landmark point only is rank deficient whatever else happens)
+        i0 = next(i for i, v in enumerate(desc["vertices"]) if v["cls"] == "PoseSE3")
+        desc["vertices"][0], desc["vertices"][i0] = desc["vertices"][i0], desc["vertices"][0]
+        for i, v in enumerate(desc["vertices"]):
+            v["fixed"] = i == 0
+        g = GG.rebuild(desc)
+        mode = rng.choice(["plain", "extra-first-ffp", "extra-fixed-after", "flags-after"])
+        kiter = rng.randrange(1, 6)
+        # reference: the plain graph must itself stay finite for this number of iterations
+        gref = GG.rebuild(desc)
+        with warnings.catch_warnings(), contextlib.redirect_stdout(io.StringIO()):
+            warnings.simplefilter("ignore")
+            gref.optimize(tol=0.0, max_iter=kiter, fix_first_pose=False, verbose=False)
+        if not all(np.all(np.isfinite(np.asarray(v.pose))) for v in gref._vertices):
+            continue
+        vs = list(g._vertices)
+        extra = None
+        if mode in ("extra-first-ffp", "extra-fixed-after"):
+            extra = Vertex(10**6 + k, GG.mk_pose("PoseSE3", GG.rand_pose_vals(rng, "PoseSE3")), fixed=False)
+            vs = [extra] + vs if mode == "extra-first-ffp" else vs[:1] + [extra] + vs[1:]
+        flags = [bool(v.fixed) for v in vs]
+        if mode in ("flags-after", "extra-fixed-after"):
+            for v in vs:
+                v.fixed = False
+        g2 = Graph(list(g._edges), vs)
+        if mode in ("flags-after", "extra-fixed-after"):
+            for v, f in zip(vs, flags):
+                v.fixed = f
+            if extra is not None:
+                extra.fixed = True
+        with warnings.catch_warnings(), contextlib.redirect_stdout(io.StringIO()):
+            warnings.simplefilter("ignore")
+            g2.optimize(tol=0.0, max_iter=kiter, fix_first_pose=(mode == "extra-first-ffp" or rng.random() < 0.5), verbose=False)
+        ev += 1
+        for v in g2._vertices:
+            if type(v.pose).__name__ == "PoseSE3":
+                q = np.asarray(v.pose)[3:]
+                if not np.all(np.isfinite(q)) or abs(float(np.linalg.norm(q)) - 1) > 1e-12:
+                    return dict(kind="unit_quaternion_after_optimize", mode=mode, vertex=v.id, quaternion=q.tolist(), desc=desc), ev
+    return None, ev
 
 
 if __name__ == "__main__":
